@@ -230,16 +230,30 @@ func (c *Ctx) ruleCopyWriteback(pkgs ...string) {
 				if !ok {
 					continue
 				}
-				callee := call.Call.StaticCallee()
-				if callee == nil || len(call.Call.Args) == 0 || call.Call.Args[0] != a || !writesThroughReceiver(P, callee, map[*ssa.Function]bool{}) {
+				argIdx := -1
+				for i, arg := range call.Call.Args {
+					if arg == a {
+						argIdx = i
+					}
+				}
+				if argIdx < 0 {
 					continue
 				}
+				callee := P.Callee(&call.Call)
+				calleeName := "a function value"
+				if callee != nil {
+					if w, _ := c.writesThroughParam(callee, argIdx, map[string]bool{}); !w {
+						continue
+					}
+					calleeName = FuncName(callee)
+				}
+				// (a call through an unknown function value that receives &copy is assumed to modify it)
 				n++
-				cons := FuncName(fn) + "#" + FuncName(callee)
+				cons := FuncName(fn) + "#" + calleeName
 				if writebackOnAllPaths(P, call, a, lk) {
 					c.ok("COPY-WRITEBACK", cons, P.Pos(call.Pos()), "mutated copy is stored back into "+short(P.Desc(lk.X))+" on every path")
 				} else {
-					c.fail("COPY-WRITEBACK", cons, P.Pos(call.Pos()), "struct copied out of a map is mutated by "+FuncName(callee)+" but not stored back on every path: the mutation is lost when the callee allocates a new inner map/slice")
+					c.fail("COPY-WRITEBACK", cons, P.Pos(call.Pos()), "struct copied out of a map is mutated by "+calleeName+" but not stored back on every path: the mutation is lost when the callee allocates a new inner map/slice")
 				}
 			}
 		})
